@@ -8,6 +8,7 @@ from __future__ import annotations
 import ast
 
 from ..astutil import (
+    ancestors,
     calls_in,
     const_value,
     dotted,
@@ -19,7 +20,7 @@ from ..astutil import (
     src,
     walk_local,
 )
-from ..cfg import cfg_of
+from ..cfg import cfg_of, deref_at
 from ..loader import AnalysisError
 from ..terms import Evaluator, backend_method, contains, show, walk
 from . import shared
@@ -348,6 +349,7 @@ def r3_no_swallow(ctx):
         raise AnalysisError('C03.R3: positive control for return_exceptions matcher did not fire')
     n = shared.gathers_propagate(ctx, 'C03.R3')
     ctx.floor('C03.R3', 'asyncio.gather call sites in repository.py', n, 4)
+    shared.local_listing_errors_propagate(ctx, 'C03.R3')
     shared.no_swallowed_backend_errors(ctx, 'C03.R3')
 
 
@@ -652,6 +654,72 @@ def _defs_of(fi, name):
     return out
 
 
+def r7_local_clean(ctx):
+    """Local.clean removes a directory only when it holds nothing at all: whatever an interrupted command left in a
+    shard directory (a temporary, a stray file) keeps the directory, so the follow-up `clean` cannot fail on a
+    non-empty rmdir.  Every entry of the scan is reported to the caller, and a non-directory entry is reported as
+    "not empty"."""
+    corpus = ctx.corpus
+    n = 0
+    for ci in _file_backends(corpus):
+        cl = corpus.method(ci, 'clean')
+        if cl is None:
+            continue
+        gens = [m for m in ci.methods.values() if any(isinstance(y, ast.Yield) for y in walk_local(m.node)) and any((dotted(c.func) or '') == 'os.scandir' for c in calls_in(m.node)) and any(isinstance(a, ast.Attribute) and a.attr == m.name for a in ast.walk(cl.node))]
+        if not gens:
+            if any((dotted(c.func) or '').endswith('rmdir') for c in calls_in(cl.node)):
+                raise AnalysisError(f'C03.R7: {ci.name}.clean removes directories but the scan that decides emptiness was not found')
+            continue
+        for g in gens:
+            ctx.analysed(g, cl)
+            cfg = cfg_of(g.node)
+            for lp in [l for l in walk_local(g.node) if isinstance(l, ast.For) and isinstance(l.target, ast.Name)]:
+                it = deref_at(g.node, lp.iter) if isinstance(lp.iter, ast.Name) else lp.iter
+                withs = [w for w in ancestors(lp) if isinstance(w, ast.With) and any(isinstance(i.optional_vars, ast.Name) and isinstance(lp.iter, ast.Name) and i.optional_vars.id == lp.iter.id and isinstance(i.context_expr, ast.Call) and (dotted(i.context_expr.func) or '') == 'os.scandir' for i in w.items)]
+                if not withs and not (isinstance(it, ast.Call) and (dotted(it.func) or '') == 'os.scandir'):
+                    continue
+                ev = lp.target.id
+                ys = [enclosing_stmt(y) for y in walk_local(lp) if isinstance(y, ast.Yield) and isinstance(y.value, ast.Tuple) and len(y.value.elts) == 2 and isinstance(y.value.elts[0], ast.Name) and y.value.elts[0].id == ev]
+                n += 1
+                ynodes = [x for y in ys for x in cfg.nodes_of(y, 'stmt')]
+                heads = cfg.nodes_of(lp, 'loop')
+                skip = None
+                for t in cfg.nodes_of(lp, 'true'):
+                    skip = skip or cfg.path(t, heads, avoid=ynodes, kinds=('normal',))
+                ctx.check(
+                    bool(ys) and skip is None,
+                    'C03.R7',
+                    f'{func_label(g)}|every-entry-reported',
+                    loc(g, lp),
+                    f'{g.qual}: every entry of a scanned directory is reported (with its emptiness flag) to the caller',
+                    f'{g.qual}: an entry of the scanned directory can be passed over without being reported: a directory that still holds it (e.g. the temporary of an interrupted upload) is taken for empty, '
+                    'rmdir fails with ENOTEMPTY on every retry and the follow-up `clean` fails',
+                )
+                for y in ys:
+                    flag = y.value.value.elts[1] if isinstance(y.value, ast.Yield) else None
+                    yv = [v for v in walk_local(y) if isinstance(v, ast.Yield)][0].value.elts[1]
+                    if not isinstance(yv, ast.Name):
+                        continue
+                    falses = [x for a in walk_local(lp) if isinstance(a, ast.Assign) and any(isinstance(t, ast.Name) and t.id == yv.id for t in a.targets) and isinstance(a.value, ast.Constant) and a.value.value is False for x in cfg.nodes_of(a, 'stmt')]
+                    dir_tests = [i for i in walk_local(lp) if isinstance(i, ast.If) and any(isinstance(c, ast.Call) and isinstance(c.func, ast.Attribute) and c.func.attr == 'is_dir' and isinstance(c.func.value, ast.Name) and c.func.value.id == ev for c in ast.walk(i.test))]
+                    ctx.floor('C03.R7', f'is_dir test on the scanned entry in {g.name}', len(dir_tests))
+                    for i in dir_tests:
+                        neg = isinstance(i.test, ast.UnaryOp) and isinstance(i.test.op, ast.Not)
+                        nondir = cfg.nodes_of(i, 'true' if neg else 'false')
+                        leak = None
+                        for e in nondir:
+                            leak = leak or cfg.path(e, cfg.nodes_of(y, 'stmt'), avoid=falses + heads, kinds=('normal',))
+                        ctx.check(
+                            leak is None,
+                            'C03.R7',
+                            f'{func_label(g)}|non-directory-entry-is-not-empty',
+                            loc(g, y),
+                            f'{g.qual}: an entry that is not a directory is always reported as "not empty"',
+                            f'{g.qual}: a non-directory entry can be reported without `{yv.id} = False`: its directory may be removed / rmdir fails',
+                        )
+    ctx.floor('C03.R7', 'directory scans deciding emptiness for Local.clean', n)
+
+
 def run(ctx):
     from ..report import Relabel
     from .c12 import r2_rewind
@@ -665,3 +733,9 @@ def run(ctx):
     r3_no_swallow(ctx)
     r4_local_atomic(ctx)
     r5_temp_invisible(ctx)
+    r7_local_clean(ctx)
+    # a command killed inside the cache write leaves a truncated entry: the next command must discard it (the bytes that
+    # reach the decoder passed the digest comparison on every path), otherwise the repository is unusable from this client
+    fi = ctx.corpus.func('repository', 'Repository._download_snapshot_threadsafe')
+    ctx.analysed(fi)
+    shared.snapshot_bytes_verified(ctx, 'C03.R8', 'C03.R8', fi)
